@@ -4,7 +4,7 @@
 set -e
 FL=${1:-plain}
 REPO=${VERIF_REPO:-/repo}
-V=/verif
+V=$(cd "$(dirname "$0")/.." && pwd)
 O=${VERIF_OBJ:-$V/out/build-$FL}
 mkdir -p $O $V/out/bin
 CC=clang
